@@ -117,3 +117,18 @@ Theorem C02_server_tun_backpressure :
   siter login zc unz c st prev (SLTun now pkt) = siter login zc unz c st prev (SLTimeout now).
 Proof. exact siter_backpressure. Qed.
 Print Assumptions C02_server_tun_backpressure.
+
+(* ... and only then: as long as some live session can take a packet -- a raw-mode session always can, whatever its ring
+   still holds from before it switched to raw mode; a DNS-mode session when its ring is empty -- the iteration reads the
+   tun device (the downstream direction cannot wedge while such a session exists) *)
+Theorem C02_server_reads_tun_while_someone_can_take :
+  forall login zc unz c st prev now pkt i,
+  let st0 := sweep_clear st prev in
+  (i < length st0)%nat ->
+  u_active (getu st0 i) = true -> u_disabled (getu st0 i) = false -> live prev (getu st0 i) = true ->
+  (u_conn (getu st0 i) = CONN_RAW \/ (u_conn (getu st0 i) = CONN_DNS /\ u_queue_filled (getu st0 i) = O)) ->
+  siter login zc unz c st prev (SLTun now pkt) =
+  (let '(st1, o1) := Server.tunnel_tun zc st0 now pkt in
+   let '(st2, o2) := sweep_send (length st1) 0 st1 now [] in (st2, o1 ++ o2)).
+Proof. intros login zc unz. exact (siter_reads_tun login zc unz). Qed.
+Print Assumptions C02_server_reads_tun_while_someone_can_take.
